@@ -179,4 +179,97 @@ Section CanAssign.
     end.
 End CanAssign.
 
+
+(* ---- the sound core of can_assign: only the rules that are sound for membership, none of the
+   leniencies (bare generics, fixed tuple <- tuple[X, ...], NewType <- supertype, literals
+   checked after de-duplication).  Proofs/C04Sound.v: an acceptance derived with these rules is
+   (1) an acceptance of the full model and (2) sound for membership.  The harness evaluates
+   [strict_f] on every generated pair: it is the decidable guard of the soundness theorem. ---- *)
+Definition scalar_obj (o : obj) : bool :=
+  match o with
+  | OTuple _ _ | OList _ _ | OSet _ _ | OFrozenset _ | ODict _ _ => false
+  | _ => true
+  end.
+
+Definition nominal_cls (c : N) : bool := negb (protocol_like c).
+Definition all_false_b (fl : list bool) : bool := forallb negb fl.
+
+Section Strict.
+  Context (ct : class_table) (r : val -> val -> bool).
+
+  Definition gargs_is (x : option (list garg)) (want : list nat) : bool :=
+    match x with
+    | Some gs => Nat.eqb (length gs) (length want) &&
+                 forallb (fun p => match fst p with GArg i => Nat.eqb i (snd p) | _ => false end) (combine gs want)
+    | None => false
+    end.
+
+  Definition sstep (A B : val) : bool :=
+    match A with
+    | VUnion vs =>
+        match B with
+        | VUnion bs => forallb (r A) bs
+        | VLeaf (LTyped _ _) | VLeaf (LKnown _) | VNode (TGeneric _) _ | VNode (TSeq _ _) _ | VNode (TSubclass _) _ =>
+            existsb (fun a => r a B) vs
+        | _ => false
+        end
+    | VNode (TAnnot _) [t] => r t B
+    | VLeaf (LTyped d false) =>
+        nominal_cls d &&
+        match B with
+        | VUnion bs => forallb (r A) bs
+        | VNode (TAnnot _) [b] => r A b
+        | VLeaf (LTyped c _) => tassign ct c d
+        | VLeaf (LKnown o) => scalar_obj o && nominal ct (class_of o) d
+        | _ => false
+        end
+    | VLeaf (LKnown o) =>
+        scalar_obj o &&
+        match B with
+        | VUnion bs => forallb (r A) bs
+        | VNode (TAnnot _) [b] => r A b
+        | VLeaf (LKnown o') => scalar_obj o' && same_literal o o'
+        | _ => false
+        end
+    | VNode (TSubclass _) [VLeaf (LTyped d false)] =>
+        nominal_cls d &&
+        match B with
+        | VUnion bs => forallb (r A) bs
+        | VNode (TAnnot _) [b] => r A b
+        | VNode (TSubclass _) [VLeaf (LTyped c false)] => r (VLeaf (LTyped d false)) (VLeaf (LTyped c false))
+        | VLeaf (LKnown (OClass c')) => tassign ct c' d
+        | _ => false
+        end
+    | VNode (TGeneric d) args =>
+        match B with
+        | VUnion bs => forallb (r A) bs
+        | VNode (TGeneric c) bargs =>
+            issub ct c d &&
+            match gkind_of d, args, gkind_of c, bargs with
+            | Some GKElems, [X], Some GKElems, [Y] => gargs_is (gb_args ct c d) [0] && r X Y
+            | Some GKMapping, [K; V], Some GKMapping, [K'; V'] => gargs_is (gb_args ct c d) [0; 1] && r K K' && r V V'
+            | Some GKElems, [X], Some GKMapping, [K'; _] => gargs_is (gb_args ct c d) [0] && r X K'
+            | _, _, _, _ => false
+            end
+        | _ => false
+        end
+    | VNode (TSeq d fl) (_ :: ms) =>
+        match B with
+        | VUnion bs => forallb (r A) bs
+        | VNode (TSeq c fl') (_ :: bs) =>
+            N.eqb d c_tuple && N.eqb c c_tuple && tassign ct c_tuple c_tuple &&
+            all_false_b fl && all_false_b fl' && Nat.eqb (length fl) (length ms) && Nat.eqb (length fl') (length bs) &&
+            Nat.eqb (length ms) (length bs) && forall2b r ms bs
+        | _ => false
+        end
+    | _ => false
+    end.
+End Strict.
+
+Fixpoint strict_f (ct : class_table) (n : nat) (A B : val) {struct n} : bool :=
+  match n with
+  | O => false
+  | S n' => sstep ct (strict_f ct n') A B
+  end.
+
 Definition can_assign (ct : class_table) (excl : bool) (A B : val) : bool := can_assign_f ct big excl A B.
